@@ -94,6 +94,24 @@ type ttOutC struct {
 	NextPage   string `json:"NextPage,omitempty"`
 }
 
+// unsigned members: a uint64 holds [0, 2^64), twice as far up as an int64; the server's decode of the
+// arguments / of an object output must keep that half exact too
+type ttInU struct {
+	N     uint64            `json:"n"`
+	Opt   uint64            `json:"opt,omitempty"`
+	P     *uint64           `json:"p,omitempty"`
+	List  []uint64          `json:"list,omitempty"`
+	Attrs map[string]uint64 `json:"attrs,omitempty"`
+	S     int64             `json:"s,omitempty"`
+	Any   any               `json:"any,omitempty"`
+}
+type ttOutU struct {
+	Total uint64   `json:"total"`
+	Parts []uint64 `json:"parts,omitempty"`
+	Delta int64    `json:"delta,omitempty"`
+	Any   any      `json:"any,omitempty"`
+}
+
 type ttOutA struct {
 	Sum   int64    `json:"sum"`
 	Msg   string   `json:"msg,omitempty"`
@@ -110,6 +128,7 @@ type ttOutB struct {
 // what the handler has been told to do for the current call, and what it saw
 type ttCallSpec struct {
 	out     string // "nilptr" | "nilany" | raw JSON to unmarshal into Out
+	anyx    bool   // the handler puts int64/uint64 (not float64) into the `any` positions of its output
 	content string // n N 0 1 2
 	herr    int
 }
@@ -163,7 +182,7 @@ func ttHandle[In, Out any](ctl *ttCtl, name string, in In) (res *CallToolResult,
 			o.bad = "nilptr on non-pointer Out"
 		}
 	default:
-		if e := json.Unmarshal([]byte(c.out), &out); e != nil {
+		if e := ttDecodeOut([]byte(c.out), &out, c.anyx); e != nil {
 			o.bad = "handler cannot build its output: " + e.Error()
 		}
 		if v := reflect.ValueOf(&out).Elem(); rt.Kind() == reflect.Pointer && v.IsNil() {
@@ -173,6 +192,69 @@ func ttHandle[In, Out any](ctl *ttCtl, name string, in In) (res *CallToolResult,
 		}
 	}
 	return res, out, nil
+}
+
+// ttDecodeOut builds the handler's output value (p points to a value of the Out type) from JSON text.
+// exact=false: encoding/json's own choice, float64 in every `any` position. exact=true: a handler that
+// computes with integers — plain integer literals become int64 (uint64 above MaxInt64) in the `any`
+// positions, other numbers float64; typed members are exact either way.
+func ttDecodeOut(text []byte, p any, exact bool) error {
+	if !exact {
+		return json.Unmarshal(text, p)
+	}
+	dec := json.NewDecoder(bytes.NewReader(text))
+	dec.UseNumber()
+	if err := dec.Decode(p); err != nil {
+		return err
+	}
+	ttExactAny(reflect.ValueOf(p).Elem())
+	return nil
+}
+
+func ttExactAny(v reflect.Value) {
+	switch v.Kind() {
+	case reflect.Interface:
+		if !v.IsNil() {
+			if nv := ttExactIface(v.Interface()); nv != nil {
+				v.Set(reflect.ValueOf(nv))
+			}
+		}
+	case reflect.Pointer:
+		if !v.IsNil() {
+			ttExactAny(v.Elem())
+		}
+	case reflect.Struct:
+		for i := 0; i < v.NumField(); i++ {
+			ttExactAny(v.Field(i))
+		}
+	case reflect.Slice:
+		for i := 0; i < v.Len(); i++ {
+			ttExactAny(v.Index(i))
+		}
+	case reflect.Map:
+		for _, k := range v.MapKeys() {
+			nv := reflect.New(v.Type().Elem()).Elem()
+			nv.Set(v.MapIndex(k))
+			ttExactAny(nv)
+			v.SetMapIndex(k, nv)
+		}
+	}
+}
+
+func ttExactIface(x any) any {
+	switch y := x.(type) {
+	case json.Number:
+		return ttExact(ttNum(y))
+	case []any:
+		for i := range y {
+			y[i] = ttExactIface(y[i])
+		}
+	case map[string]any:
+		for k := range y {
+			y[k] = ttExactIface(y[k])
+		}
+	}
+	return x
 }
 
 func ttMk[In, Out any](name string) ttReg {
@@ -205,6 +287,9 @@ var ttRegs = []ttReg{
 	ttMk[any, any]("Y/Y"), ttMk[ttInB, []int64]("B/SI"),
 	ttMk[ttInC, ttOutA]("C/A"), ttMk[*ttInC, ttOutA]("PC/A"), ttMk[ttInC, ttOutC]("C/C"), ttMk[ttInC, *ttOutC]("C/PC"),
 	ttMk[ttInC, any]("C/Y"), ttMk[ttInA, ttOutC]("A/C"),
+	ttMk[ttInU, ttOutA]("U/A"), ttMk[ttInU, ttOutU]("U/U"), ttMk[ttInA, ttOutU]("A/U"), ttMk[ttInA, *ttOutU]("A/PU"),
+	ttMk[*ttInU, ttOutU]("PU/U"), ttMk[ttInU, any]("U/Y"), ttMk[ttInA, uint64]("A/UI"), ttMk[ttInA, []uint64]("A/SU"),
+	ttMk[ttInA, map[string]uint64]("A/MU"), ttMk[map[string]uint64, ttOutU]("MU/U"), ttMk[ttInB, ttOutU]("B/U"),
 }
 
 func ttRegByName(n string) *ttReg {
@@ -219,7 +304,7 @@ func ttRegByName(n string) *ttReg {
 // ---------------------------------------------------------------- Go type description (reflection)
 
 type ttTy struct {
-	K      string // int64 float64 string bool any ptr slice map struct
+	K      string // int64 uint64 float64 string bool any ptr slice map struct
 	Elem   *ttTy
 	Fields []ttField
 }
@@ -233,6 +318,8 @@ func ttDescribe(t reflect.Type) *ttTy {
 	switch t.Kind() {
 	case reflect.Int64:
 		return &ttTy{K: "int64"}
+	case reflect.Uint64:
+		return &ttTy{K: "uint64"}
 	case reflect.Float64:
 		return &ttTy{K: "float64"}
 	case reflect.String:
@@ -533,6 +620,9 @@ var ttExtremes = []string{
 	"9223372036854775806", "9223372036854775807", "9223372036854775808", "9223372036854775809",
 	"-9223372036854775807", "-9223372036854775808", "-9223372036854775809", "-9223372036854775810",
 	"18446744073709551615", "18446744073709551616", "18446744073709551617", "123456789012345678", "-4611686018427387905",
+	// the unsigned half of the exact range, (MaxInt64, MaxUint64]: boundaries and values float64 does not hold
+	"9223372036854775810", "9223372036854777857", "12345678901234567890", "13835058055282163713", "18446744073709549569",
+	"18446744073709551614",
 }
 
 func (g *ttGen) coin(p float64) bool      { return g.r.Float64() < p }
@@ -581,6 +671,41 @@ func (g *ttGen) intSchema() map[string]any {
 		}
 		delete(s, "const")
 		g.feat["bigbound"] = true
+	}
+	return s
+}
+
+// uintSchema: a schema for an unsigned integer member. What jsonschema.ForType infers (minimum 0, no
+// maximum) most of the time; else with a maximum (small, or at the top of the uint64 / int64 range), a
+// large minimum, or no bounds at all (the Go type is then the only limit).
+func (g *ttGen) uintSchema() map[string]any {
+	s := map[string]any{"type": "integer"}
+	if g.lax && g.coin(0.5) {
+		delete(s, "type")
+	}
+	switch g.r.Intn(10) {
+	case 0, 1, 2, 3:
+		s["minimum"] = ttNum("0")
+	case 4:
+		lo := g.r.Intn(20)
+		s["minimum"] = ttNum(strconv.Itoa(lo))
+		if g.coin(0.6) {
+			s["maximum"] = ttNum(strconv.Itoa(lo + g.r.Intn(30)))
+		}
+		g.feat["bounds"] = true
+	case 5, 6:
+		s["minimum"] = ttNum("0")
+		s["maximum"] = ttNum(g.pick("18446744073709551615", "18446744073709551615", "9223372036854775808", "18446744073709551614", "9223372036854775807"))
+		g.feat["bounds"], g.feat["u64-bound"] = true, true
+	case 7:
+		s["minimum"] = ttNum(g.pick("9223372036854775808", "9007199254740992"))
+		if g.coin(0.5) {
+			s["maximum"] = ttNum("18446744073709551615")
+		}
+		g.feat["bounds"], g.feat["u64-bound"] = true, true
+	case 8:
+		s["enum"] = []any{ttNum(strconv.Itoa(g.r.Intn(20))), ttNum(strconv.Itoa(g.r.Intn(20))), ttNum("7")}
+		g.feat["enum"] = true
 	}
 	return s
 }
@@ -644,6 +769,8 @@ func (g *ttGen) schemaFor(t *ttTy, depth int) any {
 	switch t.K {
 	case "int64":
 		return g.intSchema()
+	case "uint64":
+		return g.uintSchema()
 	case "float64":
 		return g.numSchema()
 	case "string":
@@ -760,6 +887,9 @@ func (g *ttGen) freeSchema(depth int, rootObject bool) any {
 	}
 	switch k {
 	case 0:
+		if g.coin(0.3) {
+			return g.uintSchema()
+		}
 		return g.intSchema()
 	case 1:
 		return g.numSchema()
@@ -1407,6 +1537,7 @@ type ttToolInfo struct {
 	outObj bool
 	outPtr bool
 	hasOut bool
+	outTy  reflect.Type
 }
 
 type ttPtr struct {
@@ -1631,7 +1762,7 @@ func (w *ttWorld) tool(toks []string) (op string, obs string, tags []string) {
 	if !ok {
 		return op, "not-registered", tags
 	}
-	info := &ttToolInfo{probe: st.handler, outPtr: reg.out.Kind() == reflect.Pointer}
+	info := &ttToolInfo{probe: st.handler, outPtr: reg.out.Kind() == reflect.Pointer, outTy: reg.out}
 	ib, ob, err := w.advertised(name)
 	if err != nil {
 		return op, "list-error", tags
@@ -1679,20 +1810,56 @@ func ttVariantTags(s *jsonschema.Schema, v any, out map[string]bool) {
 	}
 }
 
-// ttCall performs one tools/call described by the op.
-func (w *ttWorld) call(toks []string) (obs string, tags []string) {
+// ttHasU64 reports a plain integer in (MaxInt64, MaxUint64]: a value only an unsigned type holds.
+func ttHasU64(v any) bool {
+	switch x := v.(type) {
+	case ttNum:
+		if strings.ContainsAny(string(x), ".eE-") {
+			return false
+		}
+		_, e1 := strconv.ParseInt(string(x), 10, 64)
+		_, e2 := strconv.ParseUint(string(x), 10, 64)
+		return e1 != nil && e2 == nil
+	case []any:
+		for _, e := range x {
+			if ttHasU64(e) {
+				return true
+			}
+		}
+	case map[string]any:
+		for _, e := range x {
+			if ttHasU64(e) {
+				return true
+			}
+		}
+	}
+	return false
+}
+
+// ttCall performs one tools/call described by the op. The op is recorded with the token hout= filled in:
+// the JSON of the value the handler is going to return (encoding/json's rendering of the Out value the
+// harness builds from out= and anyx=), computed here, outside the SDK.
+func (w *ttWorld) call(toks []string) (op string, obs string, tags []string) {
+	var keep []string
+	for _, t := range toks {
+		if !strings.HasPrefix(t, "hout=") {
+			keep = append(keep, t)
+		}
+	}
+	toks = keep
+	op = strings.Join(toks, " ")
 	name := ttKV(toks, "tool")
 	if name == "" {
 		name = w.last
 	}
 	ti := w.tools[name]
 	if ti == nil {
-		return "no-tool", nil
+		return op, "no-tool", nil
 	}
 	if name != w.last {
 		tags = append(tags, "earlier-tool")
 	}
-	spec := &ttCallSpec{content: ttKV(toks, "content")}
+	spec := &ttCallSpec{content: ttKV(toks, "content"), anyx: ttKV(toks, "anyx") == "1"}
 	spec.herr, _ = strconv.Atoi(ttKV(toks, "herr"))
 	o := ttKV(toks, "out")
 	if o == "nilptr" || o == "nilany" {
@@ -1701,8 +1868,23 @@ func (w *ttWorld) call(toks []string) (obs string, tags []string) {
 	} else if b, ok := ttUnhex(o); ok {
 		spec.out = string(b)
 		tags = append(tags, "out:json")
+		pv := reflect.New(ti.outTy)
+		if e := ttDecodeOut(b, pv.Interface(), spec.anyx); e != nil {
+			return op, "harness-error " + hxs("cannot build the output: "+e.Error()), tags
+		}
+		hb, e := json.Marshal(pv.Elem().Interface())
+		if e != nil {
+			return op, "harness-error " + hxs("cannot marshal the output: "+e.Error()), tags
+		}
+		op += " hout=x" + hx(hb)
+		if hv, e := ttParse(hb); e == nil && ttHasU64(hv) {
+			tags = append(tags, "u64-out")
+		}
+		if spec.anyx {
+			tags = append(tags, "anyx")
+		}
 	} else {
-		return "bad-out-token", nil
+		return op, "bad-out-token", nil
 	}
 	a := ttKV(toks, "args")
 	var params json.RawMessage
@@ -1717,7 +1899,7 @@ func (w *ttWorld) call(toks []string) (obs string, tags []string) {
 		params = json.RawMessage(fmt.Sprintf(`{"name":%s,"arguments":%s}`, nameJSON, b))
 		v, err := ttParse(b)
 		if err != nil {
-			return "bad-args-json", nil
+			return op, "bad-args-json", nil
 		}
 		switch v.(type) {
 		case nil:
@@ -1731,8 +1913,11 @@ func (w *ttWorld) call(toks []string) (obs string, tags []string) {
 		if ttHasBigNum(v) {
 			tags = append(tags, "big-arg")
 		}
+		if ttHasU64(v) {
+			tags = append(tags, "u64-arg")
+		}
 	} else {
-		return "bad-args-token", nil
+		return op, "bad-args-token", nil
 	}
 	tags = append(tags, "args:"+argShape, "content:"+spec.content, fmt.Sprintf("herr:%d", spec.herr))
 	if gt := ttKV(toks, "gen"); gt != "" {
@@ -1770,7 +1955,7 @@ func (w *ttWorld) call(toks []string) (obs string, tags []string) {
 		return false
 	}()
 	if panicked {
-		return fmt.Sprintf("inv=%d seen=- res=panic sc=- content=- lib=%s olib=-", w.ctl.obs.inv, lib), append(tags, "res:panic")
+		return op, fmt.Sprintf("inv=%d seen=- res=panic sc=- content=- lib=%s olib=-", w.ctl.obs.inv, lib), append(tags, "res:panic")
 	}
 
 	// 2. the real round trip
@@ -1788,10 +1973,10 @@ func (w *ttWorld) call(toks []string) (obs string, tags []string) {
 		res, err = w.cs.CallTool(w.ctx, &CallToolParams{Name: name, Arguments: json.RawMessage(rawArgs)})
 	}
 	if ob.bad != "" {
-		return "harness-error " + hxs(ob.bad), tags
+		return op, "harness-error " + hxs(ob.bad), tags
 	}
 	if ob.inv > 0 && ob.who != name {
-		return "wrong-handler " + hxs(ob.who), tags
+		return op, "wrong-handler " + hxs(ob.who), tags
 	}
 	seen := "-"
 	if ob.inv > 0 {
@@ -1831,10 +2016,10 @@ func (w *ttWorld) call(toks []string) (obs string, tags []string) {
 		}
 		var members map[string]json.RawMessage
 		if e := json.Unmarshal(raw, &wire); e != nil {
-			return "bad-wire-result", tags
+			return op, "bad-wire-result", tags
 		}
 		if e := json.Unmarshal(raw, &members); e != nil {
-			return "bad-wire-result", tags
+			return op, "bad-wire-result", tags
 		}
 		structured, hasSC := members["structuredContent"]
 		var scCanon string
@@ -1889,7 +2074,7 @@ func (w *ttWorld) call(toks []string) (obs string, tags []string) {
 			}
 		}
 	}
-	return fmt.Sprintf("inv=%d seen=%s res=%s sc=%s content=%s lib=%s olib=%s", ob.inv, seen, kind, sc, content, lib, olib), tags
+	return op, fmt.Sprintf("inv=%d seen=%s res=%s sc=%s content=%s lib=%s olib=%s", ob.inv, seen, kind, sc, content, lib, olib), tags
 }
 
 // ttRun interprets one op line.
@@ -1916,8 +2101,7 @@ func (w *ttWorld) run(line string) (op, obs string, tags []string) {
 	case "tool":
 		return w.tool(toks)
 	case "call":
-		obs, tags = w.call(toks)
-		return line, obs, tags
+		return w.call(toks)
 	case "f64":
 		if len(toks) == 2 {
 			if n, ok := new(big.Int).SetString(toks[1], 10); ok {
@@ -2106,7 +2290,11 @@ func (c *ttCaseGen) addCall(t *ttGenTool) {
 	if g.coin(0.05) {
 		herr = 1 + g.r.Intn(2)
 	}
-	c.lines = append(c.lines, fmt.Sprintf("call tool=%s args=%s out=%s content=%s herr=%d gen=%s", t.name, args, out, content, herr, strings.TrimPrefix(atag, "gen:")))
+	anyx := 0
+	if g.coin(0.5) {
+		anyx = 1
+	}
+	c.lines = append(c.lines, fmt.Sprintf("call tool=%s args=%s out=%s anyx=%d content=%s herr=%d gen=%s", t.name, args, out, anyx, content, herr, strings.TrimPrefix(atag, "gen:")))
 }
 
 // ttRelated lists the registrations sharing the In or the Out Go type (pointers stripped) with reg.
